@@ -298,6 +298,8 @@ type Program struct {
 	Goroutines [][]string `json:"goroutines"`
 	Perturb    int        `json:"perturb"`
 	Reps       int        `json:"reps"`
+	// Faults: some handler calls panic (the recovery paths run concurrently with the other goroutines)
+	Faults bool `json:"faults,omitempty"`
 }
 
 func (p Program) key() string { b, _ := json.Marshal(p); return string(b) }
@@ -344,6 +346,14 @@ func runMachine(p Program) {
 	}
 	m := run.M
 	m.EvalTimeout = 2 * time.Second
+	if p.Faults {
+		run.Runner.Hook = func(cl *rec.Call, e *am.Event) (bool, bool) {
+			if (gen.IsFinalName(cl.Name) && cl.Seq%4 == 1) || cl.Seq%13 == 7 {
+				panic(fmt.Errorf("c12 injected handler fault #%d", cl.Seq))
+			}
+			return false, true
+		}
+	}
 	if p.Perturb > 0 {
 		sched.Perturb(m, p.Perturb)
 	}
@@ -704,6 +714,7 @@ func genProgram(t *rapid.T) Program {
 		p.Goroutines = append(p.Goroutines, rapid.SliceOfN(rapid.SampledFrom(catalogNames), 2, 14).Draw(t, fmt.Sprintf("g%d", g)))
 	}
 	p.Perturb = rapid.SampledFrom([]int{0, 200, 600}).Draw(t, "perturb")
+	p.Faults = !p.Table.Empty() && rapid.IntRange(0, 2).Draw(t, "faults") == 0
 	return p
 }
 
@@ -732,6 +743,14 @@ func TestKnownAndRegressions(t *testing.T) {
 		{"StateNames", "Index1", "Has1"}, {"StateNames", "Index", "Add1"}, {"StateNames", "SchemaVer"}, {"Index1", "StateNames"}}}
 	if err := checkPrograms([]Program{p}, st); err != nil {
 		t.Fatalf("C12 violated (regression): %v", err)
+	}
+	// handler faults while readers run: the panic recovery must lock like a normal transition
+	pf := Program{Kind: "machine", Schema: sc, Reps: 10, Faults: true,
+		Table: gen.Table{Bindings: []gen.Binding{{Handlers: []gen.HandlerSpec{{Name: "S0State"}, {Name: "S1State"}, {Name: "S0End"}, {Name: "S1End"}}}}},
+		Goroutines: [][]string{{"Add1", "Remove1", "Add", "Remove", "Toggle1", "Add1", "Remove1", "Toggle1"}, {"Is1", "Time", "String", "ActiveStates", "Clock", "Tick", "Is1", "Time", "StringAll"},
+			{"Time", "Tick", "Is", "Inspect", "ActiveStates", "Not1", "Any1", "Clock"}}}
+	if err := checkPrograms([]Program{pf}, st); err != nil {
+		t.Fatalf("C12 violated (regression, faults): %v", err)
 	}
 }
 
